@@ -32,6 +32,11 @@ CONFIGS = [(1, 0), (2, 0), (3, 1), (4, 1), (5, 2), (7, 3), (7, 1), (5, 0), (6, 2
 def shards(tier, seed):
     out = [{'name': f'secfld-m{m}t{t}', 'kind': 'secfld', 'm': m, 't': t} for (m, t) in (CONFIGS if tier == 'quick' else [(m, t) for m in range(1, 8) for t in range(0, (m + 1) // 2) if 2 * t < m])]
     out.append({'name': 'setup', 'kind': 'setup'})
+    out.append({'name': 'setup-noprss', 'kind': 'setup', 'extra': ['--no-prss']})
+    out.append({'name': 'setup-K0', 'kind': 'setup', 'extra': ['-K', '0']})
+    out.append({'name': 'setup-env-noprss', 'kind': 'setup', 'extra': [], 'env': {'MPYC_NOPRSS': '1'}})
+    for (m, t) in [(3, 1), (5, 2), (7, 3), (7, 1), (4, 1), (2, 0), (6, 2)] + ([(m, t) for m in range(8, 14) for t in (1, (m - 1) // 2)] if tier != 'quick' else [(11, 5), (13, 1)]):
+        out.append({'name': f'types-m{m}t{t}', 'kind': 'types', 'm': m, 't': t})
     return out
 
 
@@ -106,19 +111,22 @@ def run(shard, rec):
                 case = ['setup', m, t] + ([mode] if mode != '-M' else [])
                 if not rec.wants(case):
                     continue
+                extra = shard.get('extra', [])
+                if extra or shard.get('env'):
+                    case = case + [shard['name']]
                 if mode == '-M':
-                    argv = ['-M', str(m), '-I', '0', '--no-log'] + (['-T', str(t)] if t is not None else [])
+                    argv = ['-M', str(m), '-I', '0', '--no-log'] + (['-T', str(t)] if t is not None else []) + extra
                 else:                              # parties given by address, as in a distributed deployment (setup() does not connect)
-                    argv = [x for i in range(m) for x in ('-P', f'localhost:{12000 + i}')] + ['-I', '0', '--no-log'] + (['-T', str(t)] if t is not None else [])
+                    argv = [x for i in range(m) for x in ('-P', f'localhost:{12000 + i}')] + ['-I', '0', '--no-log'] + (['-T', str(t)] if t is not None else []) + extra
                 p = subprocess.run([sys.executable, '-c', code] + argv, stdout=subprocess.PIPE, stderr=subprocess.STDOUT, text=True, timeout=60,
-                                   env=dict(os.environ, PYTHONDONTWRITEBYTECODE='1', MPYC_NONUMPY='1'))
+                                   env=dict(os.environ, PYTHONDONTWRITEBYTECODE='1', MPYC_NONUMPY='1', **shard.get('env', {})))
                 rec.count('setup_runs')
                 okline = [l for l in p.stdout.splitlines() if l.startswith('SETUP-OK')]
                 built = bool(okline)
                 eff_t = t if t is not None else (m - 1) // 2
                 should = 2 * eff_t < m
                 if built != should:
-                    rec.violation(f'runtime.setup() with {mode} x {m} -T{t}: {"built a runtime" if built else "refused"} although 2t {"<" if should else ">="} m; output {p.stdout[-200:]!r}',
+                    rec.violation(f'runtime.setup() with {mode} x {m} -T{t} {" ".join(extra)} {shard.get("env", "")}: {"built a runtime" if built else "refused"} although 2t {"<" if should else ">="} m; output {p.stdout[-200:]!r}',
                                   {'mechanism': 'setup-threshold-check', 'fn': 'setup'}, {'case': case}, case=case)
                 elif built:
                     mm, tt, pid = okline[0].split()[1:4]
@@ -130,6 +138,8 @@ def run(shard, rec):
     from vlib.oracles import ref
     sim.install()
     m, t = shard['m'], shard['t']
+    if shard['kind'] == 'types':
+        return run_types(shard, rec, sim, m, t)
     w = sim.World(m, t, seed=1)
     results = []
 
@@ -205,3 +215,56 @@ def run(shard, rec):
         rec.case(case, nontrivial=nontriv, sample={'config': [m, t], 'args': kw, 'outcome': r[1:6]} if len(kw) == 3 and kw.get('order') == 9 and r[1] == 'ok' and kw.get('ext_deg') == 2 and 'min_order' in kw else None)
     if t == 0 or True:
         rec.count('lifted_types', 0)
+
+
+def run_types(shard, rec, sim, m, t):
+    """every secure type that the runtime agrees to construct in configuration (m, t) - at any security parameter, with generated or caller-supplied primes -
+    has a field with more elements than there are parties whenever t > 0 (else party number q would hold the secret itself as its share)"""
+    PRIMES = [3, 5, 7, 11, 13, 17, 19, 23, 31, 61, 127, 257, 65537, 2 ** 31 - 1, 2 ** 61 - 1]
+    for k in (0, 1, 2, 8, 30):
+        w = sim.World(m, t, seed=1, sec_param=k)
+        built = []
+
+        def body():
+            mpc = sim.NS.proxy
+            reqs = []
+            for l in (0, 1, 2, 3, 4, 8, 32):
+                reqs.append((f'SecInt({l})', lambda l=l: mpc.SecInt(l)))
+                for P in PRIMES:
+                    reqs.append((f'SecInt({l}, p={P})', lambda l=l, P=P: mpc.SecInt(l, p=P)))
+                for f in (0, 1, l // 2):
+                    if f <= l:
+                        reqs.append((f'SecFxp({l}, {f})', lambda l=l, f=f: mpc.SecFxp(l, f)))
+                        for P in PRIMES:
+                            reqs.append((f'SecFxp({l}, {f}, p={P})', lambda l=l, f=f, P=P: mpc.SecFxp(l, f, p=P)))
+            for l, e in ((8, 3), (16, 5), (32, 8)):
+                reqs.append((f'SecFlt({l}, e={e})', lambda l=l, e=e: mpc.SecFlt(l, e=e)))
+            for q in (2, 3, 4, 5, 7, 8, 9, 11, 13, 16, 27, 101, 256):
+                reqs.append((f'SecFld({q})', lambda q=q: mpc.SecFld(q)))
+            for name, mk in reqs:
+                try:
+                    T = mk()
+                except (AssertionError, ValueError, TypeError) as ex:
+                    built.append((name, None, type(ex).__name__))
+                    continue
+                fields = [T.field] if hasattr(T, 'field') and T.field is not None else []
+                if hasattr(T, 'significand_type'):
+                    fields = [T.significand_type.field, T.exponent_type.field]
+                built.append((name, [int(F.order) for F in fields], None))
+        w.ctx[0].run(body)
+        w.dispose()
+        for name, orders, exc in built:
+            case = [shard['name'], k, name]
+            if not rec.wants(case):
+                continue
+            rec.count('sectype_requests')
+            if orders is None:
+                rec.count('sectype_requests_refused')
+            else:
+                rec.count('sectype_fields_checked', len(orders))
+                small = [q for q in orders if q <= m]
+                if t > 0 and small:
+                    rec.violation(f'm={m},t={t},k={k}: {name} was constructed with a field of {small[0]} elements, not more than the {m} parties', {'mechanism': 'field-not-larger-than-m', 'fn': name.split('(')[0]}, {'case': case}, case=case)
+                if orders and min(orders) <= 2 * m:
+                    rec.count('fields_near_party_count')
+            rec.case(case, nontrivial=orders is not None, sample={'config': [m, t], 'k': k, 'type': name, 'field_orders': [str(q) for q in orders]} if orders and name in ('SecInt(1)', 'SecFld(4)') and k == 0 else None)
